@@ -36,10 +36,14 @@ impl Formatter {
 // R5: u64::to_string
 #[verifier::external_body]
 fn u64_to_string(x: u64) -> (r: String) ensures r@ == dec(x as nat) { x.to_string() }
+// strings by value or by reference (helpers below take either)
+trait StrLike { spec fn sv(&self) -> Seq<char>; }
+impl StrLike for String { spec fn sv(&self) -> Seq<char> { self@ } }
+impl<'a> StrLike for &'a str { spec fn sv(&self) -> Seq<char> { self@ } }
 // R5: the characters of a string, materialised (for `s.chars().enumerate()` loops)
 #[verifier::external_body]
-fn chars_of(s: &String) -> (r: Vec<char>) ensures r@ == s@ { s.chars().collect() }
-// R5: String::len (bytes) -- equal to the number of chars for ASCII text
+fn chars_of<T: StrLike>(s: &T) -> (r: Vec<char>) ensures r@ == s.sv() { unimplemented!() }
+// R5: str::len / String::len (bytes) -- equal to the number of chars for ASCII text
 #[verifier::external_body]
-fn ascii_len(s: &String) -> (r: usize) ensures all_ascii(s@) ==> r == s@.len() { s.len() }
+fn ascii_len<T: StrLike>(s: &T) -> (r: usize) ensures all_ascii(s.sv()) ==> r == s.sv().len() { unimplemented!() }
 spec fn all_ascii(s: Seq<char>) -> bool { forall|i: int| 0 <= i < s.len() ==> (#[trigger] s[i] as u32) < 128 }
